@@ -340,6 +340,18 @@ fn lcm_class(a: &IParts, b: &IParts) -> &'static str {
     if a.stride == 0 || b.stride == 0 || a.w > 8 {
         return "";
     }
+    // Classification only (never the verdict): if the interval intersection itself reports its
+    // "Integer overflow during chinese remainder theorem computation" error, the case belongs to the
+    // open finding DESIGN F11 (overflow reported as empty intersection), whatever the input shape.
+    {
+        use cwe_checker_lib::abstract_domain::SpecializeByConditional;
+        let (x, y) = (a.build(), b.build());
+        if let Ok(Err(e)) = crate::engine::cut(|| x.intersect(&y)) {
+            if format!("{}", e).contains("Integer overflow") {
+                return ":lcm-exceeds-u64";
+            }
+        }
+    }
     let g = gcd_u(a.stride as u128, b.stride as u128);
     let gi = g as i128;
     if a.start.rem_euclid(gi) == b.start.rem_euclid(gi) && a.start % gi != b.start % gi {
